@@ -6,6 +6,7 @@ import errno
 import io
 import os
 import shutil
+import sys
 import tempfile
 
 from .core import SimCrash, HarnessError
@@ -619,3 +620,45 @@ class SimSolver(object):
         for mod, real in self._patched:
             mod.minimize = real
         self._patched = []
+
+
+class SimAlloc(object):
+    """Failing allocation at a seeded instant of a call.
+
+    While installed, the n-th entry into a function of the code under test (a frame whose file lies under a
+    ``/pmutt/`` directory) raises MemoryError inside that frame - the only thing Python promises about an allocation
+    that fails.  ``count()`` runs a call un-faulted and reports how many such instants it has, so that a fraction of
+    the way through can be chosen without knowing the code.  Counting and firing depend on the executed code only.
+    """
+
+    def __init__(self, ctx):
+        self.ctx = ctx
+        self.n = 0
+        self.at = None
+        self.fired_in = None
+
+    def _trace(self, frame, event, arg):
+        if event == 'call' and '/pmutt/' in frame.f_code.co_filename:
+            self.n += 1
+            if self.at is not None and self.n == self.at:
+                self.fired_in = '%s:%s' % (frame.f_code.co_filename.rsplit('/pmutt/', 1)[1], frame.f_code.co_name)
+                self.ctx.faults['alloc_error'] += 1
+                raise MemoryError('simulated: allocation failed (instant %d of the call)' % self.at)
+        return None
+
+    def run(self, fn, at=None):
+        """-> (instants seen, 'ok'|'memerror', value)."""
+        self.n, self.at, self.fired_in = 0, at, None
+        old = sys.gettrace()
+        sys.settrace(self._trace)
+        try:
+            try:
+                val = fn()
+                st = 'ok'
+            except MemoryError as e:
+                if self.fired_in is None:
+                    raise
+                val, st = e, 'memerror'
+        finally:
+            sys.settrace(old)
+        return self.n, st, val
